@@ -4,7 +4,8 @@ Nothing here imports dclab.  The oracle is total: for every input (arrays, reque
 it says which results are acceptable, purely from the property statement:
 
 * the returned values are the input events selected by the returned boolean mask, in input
-  order and bit for bit (``values == a[idx]``; a boolean mask cannot select an event twice);
+  order and value for value, nan matching nan (``values == a[idx]``; a boolean mask cannot
+  select an event twice; a different dtype holding equal values is not judged);
 * eligible events: all events, or - with ``remove_invalid`` - the events whose coordinates
   are all finite; nothing outside the eligible set is returned;
 * number returned: ``request`` if ``0 < request <= #eligible``, all eligible events if
@@ -19,6 +20,8 @@ The defect models predict, from the input alone, the exception raised by the bui
 ``downsample_grid`` for the known defects; a violation is attributed to a mechanism only if
 type and text of the observed exception equal the prediction.
 """
+import warnings
+
 import numpy as np
 
 GRID = 300
@@ -27,6 +30,7 @@ M_PAD = "grid-request-exceeds-data-pad-with-invalid"      # D07
 M_ZERO = "grid-zero-range-axis"                            # D08
 M_OVER = "grid-axis-range-overflows"                       # new: max-min overflows to inf
 M_ALIAS = "cache-key-is-undelimited-bytes"                 # D09 (C17) seen through C16
+M_NONCONTIG = "cache-hash-rejects-noncontiguous-array"     # new: Cache._update_hash uses .view
 
 
 # ------------------------------------------------------------------------------ oracle
@@ -51,6 +55,18 @@ def same_bits(u, v):
             and np.ascontiguousarray(u).tobytes() == np.ascontiguousarray(v).tobytes())
 
 
+def same_values(u, v):
+    """Element-wise equality of two arrays, nan equal to nan.  This is what 'without
+    alteration' can demand; a changed dtype with equal values is not judged."""
+    if not (isinstance(u, np.ndarray) and isinstance(v, np.ndarray)) or u.shape != v.shape:
+        return False
+    if u.size == 0:
+        return True
+    with np.errstate(all="ignore"):
+        eq = (u == v) | ((u != u) & (v != v))
+    return bool(np.all(eq))
+
+
 def judge(arrays, request, remove_invalid, values, idx):
     """Judge one downsampling result.
 
@@ -68,7 +84,7 @@ def judge(arrays, request, remove_invalid, values, idx):
         out["eligible"] = out["count"] = "mask unusable"
         return out
     for k, (arr, val) in enumerate(zip(arrays, values)):
-        if not same_bits(arr[idx], val):
+        if not same_values(arr[idx], val):
             out["selection"] = (f"returned values of array {k} are not input[mask] "
                                 f"(returned {getattr(val, 'shape', None)} "
                                 f"{getattr(val, 'dtype', None)}, mask selects {int(idx.sum())} "
@@ -115,7 +131,7 @@ def judge_scatter(n_ds, fa, x, y, request, xscale, yscale, remove_invalid, xr, y
     outside = int((mask & ~fa).sum())
     if outside:
         out["mask"] = f"mask selects {outside} event(s) that do not pass the dataset filter"
-    if not (same_bits(np.asarray(x)[mask], xr) and same_bits(np.asarray(y)[mask], yr)):
+    if not (same_values(np.asarray(x)[mask], xr) and same_values(np.asarray(y)[mask], yr)):
         out["values"] = (f"returned data are not ds[feat][mask] (returned "
                          f"{getattr(xr, 'shape', None)}/{getattr(yr, 'shape', None)}, "
                          f"mask selects {int(mask.sum())})")
@@ -185,16 +201,25 @@ def grid_branch(a, b, request, remove_invalid):
 MSG_EMPTY = "'a' cannot be empty unless no samples are taken"
 MSG_LARGER = "Cannot take a larger sample than population when 'replace=False'"
 MSG_OOB = "Out of bounds on buffer access (axis {})"
+MSG_VIEW = "To change to a dtype of a different size, the last axis must be contiguous"
 
 
 def _axis_cells(v):
-    """Grid coordinate of every valid event as the built code computes it (float, before
-    the cast) and the cause of a non-representable coordinate."""
-    with np.errstate(all="ignore"):
+    """Grid index of every valid event exactly as the built code computes it, and the cause
+    of an index outside the grid.
+
+    `norm` yields nan where it divides 0/0 (zero range) or inf/inf (overflowing range); the
+    cast of nan to uint32 is undefined behaviour.  With the numpy build of this sandbox
+    (x86-64) the vectorised part of the cast loop gives 2**31 and the scalar remainder
+    (the last n mod 4 float64 items) gives 0, so a constant axis with 2 or 3 valid events
+    does *not* raise.  The model therefore performs the very same cast instead of assuming
+    a value."""
+    with np.errstate(all="ignore"), warnings.catch_warnings():
+        warnings.simplefilter("ignore")
         rmin = v.min()
         rptp = v.max() - rmin
-        q = (v - rmin) / rptp * (GRID - 1)
-        oob = ~((q >= 0) & (q < GRID))          # nan -> True
+        cell = np.array((v - rmin) / rptp * (GRID - 1), dtype=np.uint32)
+    oob = cell >= GRID
     if rptp == 0:
         cause = M_ZERO
     elif not np.isfinite(rptp):
@@ -204,7 +229,7 @@ def _axis_cells(v):
     return oob, cause
 
 
-def predict_grid_defect(a, b, request, remove_invalid):
+def predict_grid_defect(a, b, request, remove_invalid, cached=True):
     """Prediction of the built ``downsample_grid`` for the known defects.
 
     Returns None (no known defect is triggered by this input) or
@@ -212,6 +237,11 @@ def predict_grid_defect(a, b, request, remove_invalid):
     """
     a = np.asarray(a)
     b = np.asarray(b)
+    for v in (a, b):
+        # the memoising decorator hashes `arg.view(np.uint8)` before anything is computed;
+        # numpy refuses that view for a strided array with items wider than a byte
+        if cached and v.dtype.itemsize != 1 and not v.flags.c_contiguous:
+            return (M_NONCONTIG, "ValueError", MSG_VIEW)
     n = int(a.shape[0])
     bad = invalid(a) | invalid(b)
     n_bad = int(bad.sum())
@@ -219,7 +249,8 @@ def predict_grid_defect(a, b, request, remove_invalid):
     if 0 < request < nv:
         # D08 & co: `norm` divides by the range of the axis.  A zero range gives 0/0 = nan
         # for every event, a range that overflows gives inf/inf = nan for some; the cast
-        # to uint32 of nan leaves the 300x300 grid and the bounds check raises.
+        # to uint32 of nan (normally) leaves the 300x300 grid and the bounds check of the
+        # first such event raises, naming the last offending axis.
         ox, cx = _axis_cells(a[~bad])
         oy, cy = _axis_cells(b[~bad])
         hit = np.flatnonzero(ox | oy)
